@@ -87,7 +87,11 @@ func main() {
 
 	var emitFD func(corpus, id, line string, fd *descriptorpb.FileDescriptorProto)
 	emit := func(corpus string, s *vschema.Schema) {
-		fileName := "verifcorpus/" + s.ID + "/" + s.ID + ".proto"
+		dir := s.ID
+		if s.Dir != "" {
+			dir = s.Dir
+		}
+		fileName := "verifcorpus/" + dir + "/" + s.ID + ".proto"
 		emitFD(corpus, s.ID, s.Line(), s.ToFile(fileName))
 	}
 	emitFD = func(corpus, id, line string, fd *descriptorpb.FileDescriptorProto) {
@@ -142,7 +146,7 @@ func main() {
 			res.Error = "plugin error: " + resp.GetError()
 		default:
 			res.OK = true
-			dir := filepath.Join(corpusDir, s.ID)
+			dir := filepath.Join(corpusDir, filepath.Base(filepath.Dir(fileName)))
 			os.MkdirAll(dir, 0o755)
 			for _, f := range resp.File {
 				p := filepath.Join(dir, filepath.Base(f.GetName()))
@@ -153,8 +157,15 @@ func main() {
 				res.OK = false
 				res.Error = "no files in response"
 			} else {
-				pkgs = append(pkgs, "github.com/cosmos/cosmos-proto/internal/verifcorpus/"+s.ID)
-				if err := writeRegistry(dir, s.ID); err != nil {
+				pkg := "github.com/cosmos/cosmos-proto/internal/verifcorpus/" + filepath.Base(dir)
+				known := false
+				for _, p := range pkgs {
+					known = known || p == pkg
+				}
+				if !known {
+					pkgs = append(pkgs, pkg)
+				}
+				if err := writeRegistry(dir, filepath.Base(dir)); err != nil {
 					res.OK = false
 					res.Error = "registry: " + err.Error()
 				}
@@ -169,6 +180,9 @@ func main() {
 	emitFD("nested", "nest", "", vschema.Nested())
 	for _, s := range vschema.Graph() {
 		emit("graph", s)
+	}
+	for _, s := range vschema.SamePkg() {
+		emit("samepkg", s)
 	}
 	for _, s := range vschema.Dup() {
 		emit("dup", s)
